@@ -1,7 +1,7 @@
 from typing import Any, ClassVar, Optional, Tuple, Type
 
 from statham.schema.constants import NotPassed
-from statham.schema.exceptions import ValidationError
+from statham.schema.exceptions import _display, ValidationError
 
 
 _TRUE = object()
@@ -91,7 +91,9 @@ class Validator:
 
     def error_message(self):
         """Generate the error message on failed validation."""
-        return self.message.format(**self.params)
+        return self.message.format(
+            **{key: _display(val, str) for key, val in self.params.items()}
+        )
 
     def __call__(self, value: Any, property_: Any):
         """Apply the validator to a value.
